@@ -251,7 +251,7 @@ def run(tier, seed, workers):
 
     # CLI: batches of 40 files (+ a few of 1, 2, 3 files); every batch mixes with/without final newline
     rng = random.Random('c15-cli-%d' % seed)
-    per_renderer = 9 if quick else 120
+    per_renderer = 7 if quick else 120
     cli_jobs = []
     spec_dom = [t for t in spec if in_domain(t)]
     rest = [t for t in all_texts if t not in set(spec_dom)]
@@ -270,7 +270,7 @@ def run(tier, seed, workers):
         for k in (1, 2, 3) if quick else (1, 1, 2, 2, 3, 3):
             cli_jobs.append((ri, rng.sample(spec_dom, k)))
     if quick:
-        cli_jobs = cli_jobs[:72]
+        cli_jobs = cli_jobs[:60]
     cparts = pool_map(cli_batch, cli_jobs, workers)
 
     out = {'evaluations': 0, 'distinct_nontrivial': 0, 'contract_evaluations': 0}
@@ -289,8 +289,6 @@ def run(tier, seed, workers):
         t = t if isinstance(t, str) else '\x00'.join(t)
         return (len(t), t, f['key'])
     failures = sorted(uniq.values(), key=sk)
-    for f in failures:
-        classify(f)
     by_class = {}
     for f in failures:
         c = f['contract'] + '/' + f.get('class', 'unclassified')
@@ -317,7 +315,3 @@ def run(tier, seed, workers):
     })
     return out
 
-
-def classify(f):
-    """Root-cause slugs for disagreements known on the pinned tree (attribution only)."""
-    return f
